@@ -416,3 +416,81 @@ Definition read_mem_finding (len : nat) (tok : bytes) : option finding :=
          | None => None
          end
   end.
+
+(* ------------------------------------------------------------------------------------------ *)
+(* inner-iteration faults (sqlite readers).  The statement yields [stmt]; stepping onto the row
+   whose key is [bad] fails: rows.Next() returns false and rows.Err() is set.  [scan_until]
+   is what the `for rows.Next()` loop has seen when it stops. *)
+
+Fixpoint scan_until {A} (bad : bytes) (stmt : list (bytes * A)) : list (bytes * A) * bool :=
+  match stmt with
+  | [] => ([], false)
+  | r :: t => if beqb (fst r) bad then ([], true)
+              else let '(p, e) := scan_until bad t in (r :: p, e)
+  end.
+
+Definition scan {A} (bad : option bytes) (stmt : list (bytes * A)) : list (bytes * A) * bool :=
+  match bad with Some b => scan_until b stmt | None => (stmt, false) end.
+
+(* the rows of the keyset statement: WHERE key >= token ORDER BY key LIMIT size+1 *)
+Definition keyset_stmt {A} (le : bytes -> bytes -> bool) (rows : list (bytes * A)) (size : N)
+           (from : bytes) : list (bytes * A) :=
+  let sorted := isort le rows in
+  let m := match from with [] => sorted | _ => filter (fun r => le from (fst r)) sorted end in
+  if size =? 0 then m else firstn (S (N.to_nat size)) m.
+
+(* keyset reader as coded (ListStores, ReadAuthorizationModels, read + ToArray): rows loop, then
+   the rows.Err() check (HandleSQLError -> internal error), then the limit+1 trick *)
+Definition page_keyset_f {A} (le : bytes -> bytes -> bool) (rows : list (bytes * A)) (size : N)
+           (from : bytes) (bad : option bytes) : outcome A :=
+  let '(got, failed) := scan bad (keyset_stmt le rows size from) in
+  if failed then Rejected EInternal
+  else Page (map snd (firstn (N.to_nat size) got))
+            (match nth_error got (N.to_nat size) with Some r => fst r | None => [] end).
+
+(* sqlite ReadChanges as coded: WHERE ulid > token ORDER BY ulid LIMIT size; rows loop; NO
+   rows.Err() check: whatever was scanned is returned, nothing scanned = ErrNotFound *)
+Definition changes_stmt {A} (rows : list (bytes * A)) (size : N) (from : bytes) : list (bytes * A) :=
+  let table := isort ble rows in
+  firstn (N.to_nat size)
+         (match from with [] => table | _ => filter (fun r => blt from (fst r)) table end).
+
+Definition changes_page_f {A} (rows : list (bytes * A)) (size : N) (from : bytes)
+           (bad : option bytes) : changes_result A :=
+  let '(got, _) := scan bad (changes_stmt rows size from) in
+  match got with
+  | [] => CNotFound
+  | _ => CPage (map snd got) (last_key got)
+  end.
+
+Definition read_sql_f {A} (rows : list (bytes * A)) (bad : option bytes) (ps : Z) (tok : bytes) :=
+  read_cmd (fun size from => page_keyset_f ble rows size from bad) ps tok.
+Definition stores_sql_f {A} (rows : list (bytes * A)) (bad : option bytes) (ps : Z) (tok : bytes) : outcome A :=
+  raw_cmd (fun size from => page_keyset_f ble rows size from bad) ps tok.
+Definition models_sql_f {A} (rows : list (bytes * A)) (bad : option bytes) (ps : Z) (tok : bytes) : outcome A :=
+  raw_cmd (fun size from => page_keyset_f desc rows size from bad) ps tok.
+Definition changes_sql_f {A} (rows : list (bytes * A)) (bad : option bytes) (ps : Z) (ty tok : bytes) : outcome A :=
+  changes_cmd (fun size from => changes_page_f rows size from bad) ps ty tok.
+
+(* is the faulty row among the rows the statement of this request yields?  (trigger of the
+   ReadChanges finding; for the keyset readers: the request must fail) *)
+Definition fault_in_stmt {A} (bad : bytes) (stmt : list (bytes * A)) : bool :=
+  existsb (fun r => beqb (fst r) bad) stmt.
+
+Definition storage_from (tok : bytes) : option bytes :=
+  match tok with
+  | [] => Some []
+  | _ => match deserialize tok with Some (u, _) => Some u | None => None end
+  end.
+
+Definition changes_sql_fault_hit {A} (rows : list (bytes * A)) (bad : bytes) (ps : Z) (tok : bytes) : bool :=
+  match storage_from tok with
+  | Some from => fault_in_stmt bad (changes_stmt rows (page_size_opt ps) from)
+  | None => false
+  end.
+
+(* is the faulty row anywhere in the WHERE range of a keyset request (an engine that materialises
+   the ORDER BY before LIMIT may fail there too) *)
+Definition keyset_fault_in_range {A} (le : bytes -> bytes -> bool) (rows : list (bytes * A))
+           (bad from : bytes) : bool :=
+  fault_in_stmt bad (keyset_stmt le rows 0 from).
